@@ -12,8 +12,8 @@
                                                           members are un-planned in reverse order)
     unplanUnits   solution_plan_units_unit.go UnPlan     (parent moved; every planned member un-planned; a failing
                                                           member moves the parent back; returns true regardless)
-    vehicleUnplan solution_vehicle.go Unplan             (files the STOPS-units of the vehicle â€” members included â€”
-                                                          under unplanned; on failure files them under planned)
+    vehicleUnplan solution_vehicle.go Unplan             (files the root units of the vehicle's stops under unplanned;
+                                                          on failure files them back under planned, returns false)
 -/
 namespace NR.Coll
 
@@ -119,12 +119,15 @@ def unplanUnits (U : Units) (s : CState) (p : Nat) (bits : List Bool) : CState Ã
   let s1 := { s with planned := rem s.planned p, unplanned := add s.unplanned p }
   (unplanMembers U p s1 (membersOf U p) bits, true)
 
-/-- `SolutionVehicle.Unplan` with the (non-fixed) stops-units `us` of that vehicle. -/
-def vehicleUnplan (_U : Units) (s : CState) (us : List Nat) (ok : Bool) : CState Ã— Bool :=
+/-- `SolutionVehicle.Unplan` with the (non-fixed) stops-units `us` of that vehicle. As repaired
+(KNOWN_FINDINGS `fixed: property=C08`): the ROOT unit of every stops-unit is filed, and a rolled
+back un-plan reports failure. -/
+def vehicleUnplan (U : Units) (s : CState) (us : List Nat) (ok : Bool) : CState Ã— Bool :=
   if us.isEmpty then (s, false) else
-  let s1 := us.foldl (fun s u => { s with unplanned := add s.unplanned u, planned := rem s.planned u }) s
+  let roots := us.map (fun u => (parentOf U u).getD u)
+  let s1 := roots.foldl (fun s u => { s with unplanned := add s.unplanned u, planned := rem s.planned u }) s
   if ok then ({ s1 with onRoute := us.foldl rem s1.onRoute }, true)
-  else (us.foldl (fun s u => { s with unplanned := rem s.unplanned u, planned := add s.planned u }) s1, true)
+  else (roots.foldl (fun s u => { s with unplanned := rem s.unplanned u, planned := add s.planned u }) s1, false)
 
 inductive COp
   | execStops (u : Nat) (ok : Bool)
